@@ -245,6 +245,12 @@ theorem attempt_coh (s : Stack) (a : Nat) (prev : Option Resp) (hp : CohO s prev
     rw [hr] at h2 ⊢
     exact reqRespLoop_coh s a (s.reqRespAt a) 0 r _ (h2 r rfl) (fun _ h => h)
 
+theorem applyHook_coh (s : Stack) (r : Resp) (h : HookAct) (hc : Coh s r) : Coh s (applyHook r h) := by
+  cases h
+  · exact hc
+  · exact hc.set_err _
+  · exact hc.set_err _
+
 theorem cleanup_coh (s : Stack) (r : Resp) (h : Coh s r) : Coh s (cleanup r) := by
   unfold cleanup
   exact ⟨h.1, by intro hc; simp at hc⟩
@@ -274,8 +280,8 @@ theorem doLoop_coh (s : Stack) :
               · intro r hr
                 simp only [waitOut, Option.some.injEq] at hr
                 subst hr
-                exact (ha r0 hr0).set_err _
-              · exact ih _ _ (by intro r hr; cases hr; exact cleanup_coh s r0 (ha r0 hr0))
+                exact (applyHook_coh s r0 _ (ha r0 hr0)).set_err _
+              · exact ih _ _ (by intro r hr; cases hr; exact cleanup_coh s _ (applyHook_coh s r0 _ (ha r0 hr0)))
           · exact hstop
 
 theorem callDo_coh (s : Stack) : CohO s (callDo Fixes.all s).resp := by
